@@ -503,6 +503,8 @@ class C10(Prop):
             ops.append(mk('dec CoseKeySet b' + refcbor.head(2, len(kb)).hex() + body, k='bare-key')); ops.append(mk('dec CoseKeySet b81' + refcbor.head(2, len(kb)).hex() + body, k='bare-key'))
         # repeated labels among neighbours of every kind (the stream of C12, restricted to keys): "pairwise distinct labels"
         ops += [mk(o['op'], k='dup-key') for o in C12().gen(seed + 3, tier) if o['meta'].get('k') == 'dup:CoseKey']
+        # … and near-duplicates: distinct labels that a careless key for the seen-set would merge (the stream of C08, restricted to keys)
+        ops += [mk(o['op'], k='near-dup') for o in C08().gen(seed + 5, 'quick') if o['meta'].get('k') == 'near-dup' and o['op'].startswith('dec CoseKey ')]
         return ops
 
 # ===================================================================== C11
